@@ -263,7 +263,9 @@ func (m *Metrics) onMetrics(ctx *gin.Context) {
 
 	var out strings.Builder
 
-	if (typ == "" || typ == metricsTypePaths) && (!anyFilterActive || pathFilter != "") {
+	// the path manager is removed while it is being recreated
+	if !interfaceIsEmpty(pathManager) &&
+		(typ == "" || typ == metricsTypePaths) && (!anyFilterActive || pathFilter != "") {
 		data, err := pathManager.APIPathsList()
 		if err == nil && len(data.Items) != 0 {
 			out.WriteString("# Paths\n")
@@ -349,7 +351,8 @@ func (m *Metrics) onMetrics(ctx *gin.Context) {
 		}
 	}
 
-	if (typ == "" || typ == metricsTypeForwardDests) &&
+	if !interfaceIsEmpty(pathManager) &&
+		(typ == "" || typ == metricsTypeForwardDests) &&
 		(!anyFilterActive || pathFilter != "" || forwardFilter != "") {
 		data, err := pathManager.APIPathsList()
 		if err == nil {
